@@ -143,6 +143,14 @@ Proof. intros HB Hd. apply c11_repairs_reject_nothing_valid; [|exact Hd].
 Corollary c07_roundtrip_limited m t rest : ids_ok t -> small t -> (tdepth t <= S m)%nat ->
   parse_tag' (lim true m) 0 (S (length (encode t))) (encode t ++ rest) = POk (t, rest).
 Proof. intros Hi Hs Hd. apply c07_any_encoding_parses_limited; [now apply encode_is_encoding|exact Hd]. Qed.
+
+(* known finding F36: the depth hypothesis is not vacuous caution. With the limit of the code (100) a chain of 102 SEQUENCEs is written by
+   the encoder and refused by the parser: C07's inverse law holds for nesting within the limit only *)
+Fixpoint nest (n : nat) : tree := match n with O => C Universal 16%N [] | S k => C Universal 16%N [nest k] end.
+Lemma c07_refuted_F36 : let t := nest 101 in ids_ok t /\ small t /\ tdepth t = 102%nat /\
+  parse_tag' (lim true 100) 0 (S (length (encode t))) (encode t) = PErr /\
+  parse_tag' (lim true 100) 0 (S (length (encode (nest 100)))) (encode (nest 100)) = POk (nest 100, []).
+Proof. vm_compute. repeat split; try reflexivity; discriminate. Qed.
 Print Assumptions c11_no_wedge.
 Print Assumptions c11_depth_bounded.
 Print Assumptions c11_limit_transparent.
